@@ -29,6 +29,7 @@
 //!                        | %st / %nap (job whose name starts so; ambiguous → the built-in fails, 2)
 //!                        | %% %+ (current job) | %- (previous job) | %N (job number N)
 //!   wu                   `wait 9999` (a pid that was never a child)
+//!   gl                   `( probe "$!" "$x"; wait $! )`: `$!` is inherited by the subshell (same value) but names no child of it (127)
 //!   wx                   `wait -x` (invalid option, 2)         gj K   `( wait $jK )` (not the subshell's child, 127)
 //!   bn MS N              `nap MS N &` (a job that sleeps MS ms of virtual time, then exits N)
 //!   k SIG K              `kill -s SIG $jK`   SIG ∈ HUP INT QUIT KILL TERM USR1 STOP CONT
@@ -361,6 +362,8 @@ fn observe_snaps() -> (String, Option<String>) {
 thread_local! {
     /// first disagreement between the job list and the process table found by `jcheck` in the run in progress
     static JFAIL: RefCell<Option<String>> = const { RefCell::new(None) };
+    /// `$!` at the previous `jcheck` of the run (0 = unset)
+    static PREV_BANG: Cell<i32> = const { Cell::new(0) };
 }
 
 /// `jcheck`: zombie / job accounting at a command boundary, evaluated on the REAL process table and the REAL job list
@@ -404,6 +407,27 @@ fn jcheck_main(env: &mut VEnv, _args: Vec<Field>) -> BuiltinFuture<'_> {
                     }
                     Some(_) => {}
                 }
+            }
+            // `$!` (XCU 2.5.2: "the process ID of the most recent background command"): the process `wait $!` must wait
+            // for — a direct child of the shell; it changes only when an asynchronous list has just been started (then
+            // it is the pid of an owned job), never through a foreground command, a `wait` or a subshell
+            let bang = env.jobs.last_async_pid();
+            let prev = PREV_BANG.with(|c| c.replace(bang.0));
+            if bang.0 != 0 {
+                match table.processes.get(&bang) {
+                    None => {
+                        fail.get_or_insert(format!("bang-{bang}-names-no-process"));
+                    }
+                    Some(p) if p.ppid() != me => {
+                        fail.get_or_insert(format!("bang-{bang}-is-not-a-child-of-the-shell"));
+                    }
+                    Some(_) => {}
+                }
+                if bang.0 != prev && !env.jobs.iter().any(|(_, j)| j.is_owned && j.pid == bang) {
+                    fail.get_or_insert(format!("bang-changed-to-{bang}-which-is-no-job"));
+                }
+            } else if prev != 0 {
+                fail.get_or_insert("bang-was-reset".to_string());
             }
             if let Some(f) = fail {
                 JFAIL.with(|v| {
@@ -594,6 +618,7 @@ fn run_sched(script: &str, mut chooser: Chooser) -> RunOut {
     STATE.with(|s| *s.borrow_mut() = Some(Rc::clone(&state)));
     SNAPS.with(|v| v.borrow_mut().clear());
     JFAIL.with(|v| *v.borrow_mut() = None);
+    PREV_BANG.with(|c| c.set(0));
     FAIL_FORK.with(|c| c.set(None));
     // virtual time (needed by `nap`): starts now, advanced by the run loop only when nothing is runnable
     state.borrow_mut().now = Some(std::time::Instant::now());
@@ -868,6 +893,8 @@ fn render_stmt(t: &str, nasync: &mut usize) -> Option<String> {
         }
         ["ti"] => "trap '' USR2; kill -s USR2 $$".to_string(),
         ["gj", k] => format!("( wait $j{} )", k.parse::<usize>().ok().filter(|k| *k >= 1 && *k <= *nasync)?),
+        // `$!` in a subshell: inherited (the probe inside shows the same value) but not waitable there (127)
+        ["gl"] if *nasync >= 1 => "( probe \"$!\" \"$x\"; wait $! )".to_string(),
         ["wx"] => "wait -x".to_string(),
         ["scp", n] if *nasync == 0 => {
             // the same for the first member of a pipeline (`wait_for_subshell_to_finish`)
@@ -1289,6 +1316,7 @@ fn gen_jobs_program(r: &mut Rng, thorough: bool) -> String {
                 continue;
             }
             12 => (if r.chance(1, 2) { "ti" } else { "wx" }).to_string(),
+            13 if !jobs.is_empty() && r.chance(1, 2) => "gl".to_string(),
             13 if !jobs.is_empty() => format!("gj {}", 1 + r.below(jobs.len())),
             14 => {
                 monitor = !monitor;
@@ -1394,6 +1422,28 @@ fn gen_fd(r: &mut Rng, max: usize) -> String {
     format!("fd {} {} {}", dash(closed), dash(opened), 2 + r.below(max - 1))
 }
 
+/// A flow pipeline of 3-4 ARBITRARY stages (no race-freedom: which writers get EPIPE depends on the schedule).  Only
+/// generated while `pipefail` is off: then the status is the last stage's own under every schedule
+/// (`flow_pipeline_status_any_stages`).  The last stage does not write (standard output is the trace).
+fn gen_flow_any(r: &mut Rng) -> String {
+    const SIZES: [usize; 9] = [0, 1, 511, 512, 1024, 1025, 2048, 2500, 3000];
+    let n = 3 + r.below(2);
+    let mut ms: Vec<String> = vec![];
+    for i in 0..n {
+        let st = *r.pick(&FLOW_STATUSES);
+        let k = *r.pick(&SIZES);
+        let last = i + 1 == n;
+        ms.push(match r.below(if last { 3 } else { 6 }) {
+            0 => format!("t{k}.{st}"),
+            1 => "d".to_string(),
+            2 => format!("s{st}"),
+            3 => "c".to_string(),
+            _ => format!("w{k}"),
+        });
+    }
+    format!("fp {}", ms.join(" "))
+}
+
 fn gen_program(r: &mut Rng, thorough: bool) -> String {
     let len = 2 + r.below(if thorough { 7 } else { 5 });
     let mut stmts: Vec<String> = vec![];
@@ -1401,6 +1451,7 @@ fn gen_program(r: &mut Rng, thorough: bool) -> String {
     let mut open: Vec<usize> = vec![]; // jobs not yet waited for
     let mut live = 0usize; // processes the unwaited jobs may keep alive
     let mut weight: Vec<usize> = vec![0]; // per job number
+    let mut pf = false; // `set -o pipefail` in effect
     for _ in 0..len {
         let st = *r.pick(&STATUSES);
         let room = 4usize.saturating_sub(live);
@@ -1409,7 +1460,14 @@ fn gen_program(r: &mut Rng, thorough: bool) -> String {
             choice = 5; // nothing to wait for yet: start a job instead
         }
         let s = match choice {
-            0 => (*r.pick(&["pf1", "pf0", "m1", "m0"])).to_string(),
+            0 => {
+                let t = *r.pick(&["pf1", "pf0", "m1", "m0"]);
+                if t.starts_with("pf") {
+                    pf = t == "pf1";
+                }
+                t.to_string()
+            }
+            1 if room >= 4 && !pf && r.chance(1, 3) => gen_flow_any(r),
             1 if room >= 3 && r.chance(2, 5) => gen_fd(r, (room - 1).min(4)),
             1 if room >= 3 => {
                 let f = gen_flow(r);
@@ -1465,6 +1523,7 @@ fn gen_program(r: &mut Rng, thorough: bool) -> String {
                 live = 0;
                 "w".to_string()
             }
+            12 if nasync >= 1 && r.chance(1, 3) => "gl".to_string(),
             12 => format!("g {st}"),
             13 if room >= 2 => format!("gg {st}"),
             14 if room >= 3 => format!("gp {}", gen_members(r, 2, true).join(" ")),
@@ -1531,7 +1590,11 @@ fn gen_program(r: &mut Rng, thorough: bool) -> String {
     stmts.join("; ")
 }
 
-const FIXED_PROGRAMS: [&str; 60] = [
+const FIXED_PROGRAMS: [&str; 64] = [
+    "bg s3; gl; g 4; gl; p s1 s2; gl; wj 1; gl; w",
+    "bg s1 s2; gl; bg g7; gl; wj 2 1; gl; w",
+    "fp s5 w3000 c t10.7; fp w2500 t1.3 w1025 d",
+    "fp w1025 c c s9; fp w3000 t512.1 c t1.42",
     "tc 3; tcx; wj 1; w",
     "tc 300; tcx; g 4; wj 1; wj 1; w",
     "ts2 USR2 USR1 3; wj 1; w",
